@@ -112,6 +112,10 @@ def gen_step(rng, cs):
     if k < 0.84: return ("revoke", host, port)
     if k < 0.87: return ("clear",)
     if k < 0.92: return ("import", host, port, rng.randrange(len(cs)), rng.random() < 0.7)       # re-pin through an import (merge, conflict accepted / replace)
+    if k < 0.94:
+        # an import that FAILS part-way (a valid entry for this host, then a malformed one), in merge or replace mode: it raises,
+        # and "leaves every pin unchanged" - what later connections are checked against
+        return ("import_bad", host, port, rng.randrange(len(cs)), rng.random() < 0.5, rng.choice(["badfp", "port0", "missing"]))
     if k < 0.96: return ("external_trust", host, port, rng.randrange(len(cs)))                   # another TOFUDatabase object on the same file (e.g. the CLI)
     return ("external_revoke", host, port)
 
@@ -188,6 +192,23 @@ def run_histories(tier, seed, tofu_modes=(True, False)):
                         with open(f, "wb") as fh:
                             tomli_w.dump({"hosts": {"k": {"hostname": h, "port": st[2], "fingerprint": cs[st[3]]["fp"], "first_seen": "T", "last_seen": "T"}}}, fh)
                         db.import_toml(f, merge=st[4], on_conflict=lambda *a: True)
+                    elif st[0] == "import_bad":
+                        import tomli_w
+                        h = st[1][1:-1] if st[1].startswith("[") else st[1]
+                        bad = {"hostname": "zz.example", "port": 1965, "fingerprint": cs[st[3]]["fp"], "first_seen": "T", "last_seen": "T"}
+                        if st[5] == "badfp": bad["fingerprint"] = "sha256:xyz"
+                        elif st[5] == "port0": bad["port"] = 0
+                        else: del bad["fingerprint"]
+                        f = Path(tmp) / "impbad.toml"
+                        with open(f, "wb") as fh:
+                            tomli_w.dump({"hosts": {"a": {"hostname": h, "port": st[2], "fingerprint": cs[st[3]]["fp"], "first_seen": "T", "last_seen": "T"},
+                                                    "b": {"hostname": "other.example", "port": 1970, "fingerprint": cs[st[3]]["fp"], "first_seen": "T", "last_seen": "T"},
+                                                    "c": bad}}, fh)
+                        try:
+                            db.import_toml(f, merge=st[4], on_conflict=lambda *a: True)
+                            failed = False
+                        except Exception:
+                            failed = True
                     elif st[0] == "external_trust":
                         TOFUDatabase(path).trust(st[1][1:-1] if st[1].startswith("[") else st[1], st[2], cs[st[3]]["cert"])
                     elif st[0] == "external_revoke":
@@ -201,6 +222,8 @@ def run_histories(tier, seed, tofu_modes=(True, False)):
                             want = sorted(others(before) + [[hh, st[2], cs[st[3]]["fp"], "T"]], key=lambda r: (r[0], r[1]))
                         elif st[0] == "import":
                             want = [[hh, st[2], cs[st[3]]["fp"], "T"]]
+                        elif st[0] == "import_bad":
+                            want = before if failed else None        # it must fail; having failed, it must have changed nothing
                         elif st[0] in ("revoke", "external_revoke"):
                             want = others(before)
                         else:
